@@ -133,7 +133,8 @@ func inputSteps(src []byte) (steps any, ok bool, nonfinite bool, tooBig bool) {
 	avExotic = false
 	a, err := avFromNode(&n, 0)
 	if err != nil {
-		return nil, false, false, false
+		// (e.g. a merge cycle the harness's own walker gives up on): still say whether a non-finite float is written
+		return nil, false, nodeHasNonFinite(&n, map[*yaml.Node]bool{}), false
 	}
 	if avExotic {
 		// the step sequence cannot be read unambiguously, but whether the input holds a non-finite float can
@@ -164,6 +165,29 @@ func inputSteps(src []byte) (steps any, ok bool, nonfinite bool, tooBig bool) {
 		return obj{"t": "q", "e": []any{}}, true, nf, false
 	}
 	return nil, false, nf, false
+}
+
+// nodeHasNonFinite: some scalar of the raw node graph is a non-finite float (.inf, -.inf, .nan).
+func nodeHasNonFinite(n *yaml.Node, seen map[*yaml.Node]bool) bool {
+	if n == nil || seen[n] {
+		return false
+	}
+	seen[n] = true
+	if n.Kind == yaml.ScalarNode && n.ShortTag() == "!!float" {
+		var f float64
+		if n.Decode(&f) == nil && (math.IsInf(f, 0) || math.IsNaN(f)) {
+			return true
+		}
+	}
+	if n.Kind == yaml.AliasNode && nodeHasNonFinite(n.Alias, seen) {
+		return true
+	}
+	for _, c := range n.Content {
+		if nodeHasNonFinite(c, seen) {
+			return true
+		}
+	}
+	return false
 }
 
 func hasDupKeys(a any) bool {
